@@ -133,7 +133,7 @@ let model (e : env) (fields : string array) : string =
       let t_cr = List.concat_map (fun c -> if N.eqb c lF then [cR; lF] else [c]) t_lf in
       String.concat "\t"
         [ wrap_s e o a; wrap_s e o ab; wrap_s e o b; wrap_s e o a2b; fill_s e o ab;
-          fill_s e { o with o_le = LE_LF } t_lf; fill_s e { o with o_le = LE_CRLF } t_cr ]
+          fill_s e { o with o_le = LE_LF } t_lf; fill_s e { o with o_le = LE_CRLF } t_cr; fill_s e o b ]
   | "wrap13" ->
       let o = dopts (f 1) and t = ds (f 2) in
       wrap_s e o t ^ "\t" ^ wrap_s e o (strip t)
